@@ -485,7 +485,9 @@ def gather_spec(ty, cfg, n, args, ev):
         if base != 'arg:p' or off != 0 or scales != (W // 8,) or t.width != W:
             return False, label, 'P', 'lane %d reads %s+%d with scale %s (want src + i*%d)' % (i, base, off, scales, W // 8)
         ix = t.ops[0]
-        if ix not in (T.sext(idx[i], 64), T.zext(idx[i], 64), idx[i]):
+        if ix == T.zext(idx[i], 64) and W < 64:
+            return False, label, 'P', 'lane %d zero-extends its (signed) index lane: a negative index addresses src + 2^%d - |i| instead of src - |i|' % (i, W)
+        if ix != T.sext(idx[i], 64):
             return False, label, 'P', 'lane %d uses index %s instead of index lane %d' % (i, T.fmt(ix, 3)[:160], i)
     return True, label, 'P', ''
 
@@ -506,8 +508,10 @@ def scatter_spec(ty, cfg, n, args, ev):
         ix = p.var[0][0]
         hit = None
         for i in range(n):
-            if ix in (T.sext(idx[i], 64), T.zext(idx[i], 64), idx[i]):
+            if ix == T.sext(idx[i], 64):
                 hit = i
+            elif ix == T.zext(idx[i], 64) and W < 64:
+                return False, label, 'P', 'the write for index lane %d zero-extends the (signed) index: a negative index addresses dst + 2^%d - |i| instead of dst - |i|' % (i, W)
         if hit is None:
             return False, label, 'P', 'write uses index %s which is no index lane' % T.fmt(ix, 3)[:160]
         if T.canon(val) != a[hit]:
